@@ -78,9 +78,8 @@ From RQ Require Import Apply Parser Quilt ViewSim Independence.
    class, leaves every name of the class the same - lines, existence, effective mode.  A worker that applies only
    its own file patches to its own overlay computes what the sequential driver computes for those names. *)
 Theorem C06_class_is_independent :
-  forall inK dm fs cls,
-    (forall fp, cls fp = true -> fpK (K inK) fp) -> (forall fp, cls fp = false -> fp_out inK fp) ->
-    forall index sp fuzz fps st stK af afK af' st',
+  forall inK dm fs cls index sp fuzz fps st stK af afK af' st',
+    Forall (classified inK cls) fps ->
     wsim (K inK) dm fs (a_files st) fs (a_files stK) ->
     apply_file_patches fs st index sp fuzz fps af = ROk (af', st') ->
     exists afK' stK', apply_file_patches fs stK index sp fuzz (filter cls fps) afK = ROk (afK', stK') /\
@@ -94,3 +93,15 @@ Theorem C06_outside_is_a_frame :
     fp_out inK fp -> apply_one_file_patch fs st idx pn rev F fp = ROk (ok, st1) -> veqK inK (a_files st1) (a_files st).
 Proof. exact apply_one_outside. Qed.
 Print Assumptions C06_outside_is_a_frame.
+
+(* with C07: W assigns a worker to every name and gives both names of every file patch the same worker; then each
+   worker's names are such a class, and its file patches are the ones whose (old, else new) name it owns *)
+Theorem C06_worker_is_independent :
+  forall W dm fs w index sp fuzz fps st stK af afK af' st',
+    Forall (same_worker W) fps ->
+    wsim (K (fun k => Nat.eqb (W k) w)) dm fs (a_files st) fs (a_files stK) ->
+    apply_file_patches fs st index sp fuzz fps af = ROk (af', st') ->
+    exists afK' stK', apply_file_patches fs stK index sp fuzz (filter (fun fp => Nat.eqb (owner W fp) w) fps) afK = ROk (afK', stK') /\
+                      wsim (K (fun k => Nat.eqb (W k) w)) dm fs (a_files st') fs (a_files stK').
+Proof. exact worker_is_independent. Qed.
+Print Assumptions C06_worker_is_independent.
